@@ -173,9 +173,10 @@ theorem single_cell_spec (E : Env α) (c : FCtx α) (root : Node α) (L : Nat) (
 def Spec (E : Env α) (c : FCtx α) (root n : Node α) (s : HState α) (ids : List Nat) (s' : HState α) : Prop :=
   Ext (n.data.comb.length + 1) s s' ∧ GInv E c root s' ∧ GoodIds (nodeKey n) s' ids
 
-/-- conservation: nothing released, or the counts add up to the node's released count or one less -/
+/-- conservation: nothing released — and then the node fails the low-count filter on the rows it holds —, or the counts
+add up to the node's released count or one less -/
 def Cons (E : Env α) (c : FCtx α) (n : Node α) (ids : List Nat) (s' : HState α) : Prop :=
-  ids = [] ∨ ∃ N, n.noisyCount E c = .ok N ∧ (sumCounts s'.cells ids = N ∨ sumCounts s'.cells ids = N - 1)
+  (ids = [] ∧ n.overThreshold E c c.ap.supp.lt = false) ∨ ∃ N, n.noisyCount E c = .ok N ∧ (sumCounts s'.cells ids = N ∨ sumCounts s'.cells ids = N - 1)
 
 /-- what `_refine_buckets` guarantees: fresh cells only, adding up to exactly the requested count -/
 def RefineSpec (E : Env α) (c : FCtx α) (root n : Node α) (count : Int) (s : HState α) (ids : List Nat) (s' : HState α) : Prop :=
@@ -244,7 +245,7 @@ theorem leaf_of_refine (E : Env α) (c : FCtx α) (hlt : 0 ≤ c.ap.supp.lt) (ro
       exact ⟨⟨e1.mono (Nat.le_succ _), e2, e3⟩, Or.inr ⟨N, hN, Or.inl hsum⟩⟩
   · rw [if_neg hover] at h0
     obtain ⟨rfl, rfl⟩ := StateT_pure_ok _ _ _ _ h0
-    exact ⟨Spec.nil E c root n s hG, Or.inl rfl⟩
+    exact ⟨Spec.nil E c root n s hG, Or.inl ⟨rfl, by simpa using hover⟩⟩
 
 theorem randint_run (hi : Int) (s s' : HState α) (v : Nat) (h : (HM.randint (α := α) hi).run s = .ok (v, s')) :
     s'.cells = s.cells ∧ s'.cache = s.cache := by
